@@ -280,6 +280,10 @@ qb_log_blackbox_print_from_file(const char *bb_filename)
 		uint32_t msg_len;
 		struct tm *tm;
 		char message[QB_LOG_MAX_LEN];
+		/* fixed-size part of a record: lineno, tags, priority,
+		 * fn_size, timestamp, msg_len */
+		size_t hdr_size = 4 * sizeof(uint32_t) + sizeof(uint8_t) +
+			(have_timespecs ? sizeof(struct timespec) : sizeof(time_t));
 
 		bytes_read = qb_rb_chunk_read(instance, chunk, max_size, 0);
 
@@ -309,7 +313,7 @@ qb_log_blackbox_print_from_file(const char *bb_filename)
 
 		/* function size & name */
 		memcpy(&fn_size, ptr, sizeof(uint32_t));
-		if ((fn_size + BB_MIN_ENTRY_SIZE) > bytes_read) {
+		if ((fn_size + hdr_size) > bytes_read) {
 #ifndef S_SPLINT_S
 			printf("ERROR Corrupt file: fn_size way too big %" PRIu32 "\n", fn_size);
 			err = -EIO;
@@ -327,6 +331,11 @@ qb_log_blackbox_print_from_file(const char *bb_filename)
 
 		function = ptr;
 		ptr += fn_size;
+		if (function[fn_size - 1] != '\0') {
+			printf("ERROR Corrupt file: function name not terminated\n");
+			err = -EIO;
+			goto cleanup;
+		}
 
 		/* timestamp size & content */
 		if (have_timespecs) {
@@ -351,7 +360,8 @@ qb_log_blackbox_print_from_file(const char *bb_filename)
 		}
 		/* message length */
 		memcpy(&msg_len, ptr, sizeof(uint32_t));
-		if (msg_len > QB_LOG_MAX_LEN || msg_len <= 0) {
+		if (msg_len > QB_LOG_MAX_LEN || msg_len <= 0 ||
+		    msg_len > bytes_read - (hdr_size + fn_size)) {
 #ifndef S_SPLINT_S
 			printf("ERROR Corrupt file: msg_len out of bounds %" PRIu32 "\n", msg_len);
 			err = -EIO;
@@ -363,7 +373,14 @@ qb_log_blackbox_print_from_file(const char *bb_filename)
 
 		/* message content */
 		len = qb_vsnprintf_deserialize(message, QB_LOG_MAX_LEN, ptr);
-		assert(len > 0);
+		if (len == 0) {
+			printf("ERROR Corrupt file: empty message\n");
+			err = -EIO;
+			goto cleanup;
+		}
+		if (len > QB_LOG_MAX_LEN - 1) {
+			len = QB_LOG_MAX_LEN - 1;
+		}
 		message[len] = '\0';
 		len--;
 		while (len > 0 && (message[len] == '\n' || message[len] == '\0')) {
